@@ -108,7 +108,7 @@ def weave(scratch, cfg, contracts_dir):
         text = open(path).read()
         if not text.endswith("\n"):
             text += "\n"
-        text += f'#[cfg(kani)] #[path = "{name}.rs"] mod {name}; {MARK}\n'
+        text += f'#[cfg(kani)] #[path = "{name}.rs"] pub(crate) mod {name}; {MARK}\n'
         open(path, "w").write(text)
         summary["modules"].append({"file": rel, "module": name, "source": mod["source"]})
         summary["inserted_lines"] += 1
